@@ -53,6 +53,17 @@ type Region struct {
 	// SlowFailGenerate > 0 makes GenerateDataKey hang for that long (or until the request's context is done) and
 	// then fail: an endpoint that is slow to time out.
 	SlowFailGenerate time.Duration
+	// IncompleteGenerate makes GenerateDataKey answer with a Plaintext but without CiphertextBlob and KeyId (a
+	// malformed but "successful" response); the plaintext is retained in Handed like every other one.
+	IncompleteGenerate bool
+	// SlowEncrypt makes Encrypt take that long (or until the request's context is done, in which case it fails).
+	SlowEncrypt time.Duration
+	// TimeoutDecrypt makes Decrypt fail with an error that wraps context.DeadlineExceeded, the way an HTTP client
+	// timeout of the SDK surfaces, although the caller's context is alive.
+	TimeoutDecrypt bool
+	// Alias, when non-empty, is an alias ARN the region's key can also be addressed by; responses always report the
+	// key ARN in KeyId, as KMS does.
+	Alias string
 	// Handed holds every Plaintext slice handed out in a response (same backing arrays).
 	Handed [][]byte
 }
@@ -68,13 +79,29 @@ func NewCloud(regions ...string) *Cloud {
 	return c
 }
 
-// ARNMap returns region -> ARN for the given regions.
+// ARNMap returns region -> configured key id for the given regions: the key ARN, or the alias ARN of regions that
+// have one.
 func (c *Cloud) ARNMap(regions ...string) map[string]string {
 	m := map[string]string{}
 	for _, r := range regions {
-		m[r] = c.Regions[r].ARN
+		m[r] = c.Regions[r].ConfiguredID()
 	}
 	return m
+}
+
+// ConfiguredID is the id applications configure for the region's key.
+func (r *Region) ConfiguredID() string {
+	if r.Alias != "" {
+		return r.Alias
+	}
+	return r.ARN
+}
+
+// UseAliases gives every region an alias ARN; ARNMap then hands out the aliases.
+func (c *Cloud) UseAliases() {
+	for _, r := range c.Regions {
+		r.Alias = "arn:aws:kms:" + r.Name + ":123456789012:alias/asherah-" + r.Name
+	}
 }
 
 // Reset clears failure flags, logs and retained buffers.
@@ -84,6 +111,7 @@ func (c *Cloud) Reset() {
 	c.Log, c.Requests, c.ReqPlain = nil, nil, nil
 	for _, r := range c.Regions {
 		r.FailGenerate, r.FailEncrypt, r.FailDecrypt, r.WrongPlaintext, r.SlowFailGenerate = false, false, false, false, 0
+		r.IncompleteGenerate, r.SlowEncrypt, r.TimeoutDecrypt = false, 0, false
 		r.Handed = nil
 	}
 }
@@ -119,6 +147,8 @@ func (r *Region) open(blob []byte) ([]byte, error) {
 	return g.Open(nil, rest[:12], rest[12:], []byte(r.ARN))
 }
 
+func (r *Region) owns(keyID string) bool { return keyID == r.ARN || (r.Alias != "" && keyID == r.Alias) }
+
 // ctxErr reports a request whose context is already done the way the AWS SDKs do (they do not send it).
 func ctxErr(ctx context.Context) error {
 	if ctx != nil && ctx.Err() != nil {
@@ -150,7 +180,7 @@ func (r *Region) generate(ctx context.Context, keyID string) (pt, blob []byte, e
 	}
 	r.cloud.mu.Lock()
 	defer r.cloud.mu.Unlock()
-	if r.FailGenerate || keyID != r.ARN {
+	if r.FailGenerate || !r.owns(keyID) {
 		r.cloud.log(r.Name, "generate", false)
 		return nil, nil, fmt.Errorf("KMSInternalException: generate failed in %s", r.Name)
 	}
@@ -169,11 +199,26 @@ func (r *Region) encrypt(ctx context.Context, keyID string, pt []byte) ([]byte, 
 		r.cloud.mu.Unlock()
 		return nil, err
 	}
+	if d := r.SlowEncrypt; d > 0 {
+		var done <-chan struct{}
+		if ctx != nil {
+			done = ctx.Done()
+		}
+		select {
+		case <-time.After(d):
+		case <-done:
+			r.cloud.mu.Lock()
+			r.cloud.ReqPlain = append(r.cloud.ReqPlain, pt)
+			r.cloud.log(r.Name, "encrypt", false)
+			r.cloud.mu.Unlock()
+			return nil, ctxErr(ctx)
+		}
+	}
 	r.cloud.mu.Lock()
 	defer r.cloud.mu.Unlock()
 	r.cloud.Requests = append(r.cloud.Requests, append([]byte(nil), pt...))
 	r.cloud.ReqPlain = append(r.cloud.ReqPlain, pt)
-	if r.FailEncrypt || keyID != r.ARN {
+	if r.FailEncrypt || !r.owns(keyID) {
 		r.cloud.log(r.Name, "encrypt", false)
 		return nil, fmt.Errorf("KMSInternalException: encrypt failed in %s", r.Name)
 	}
@@ -194,6 +239,10 @@ func (r *Region) decrypt(ctx context.Context, blob []byte) ([]byte, error) {
 	if r.FailDecrypt {
 		r.cloud.log(r.Name, "decrypt", false)
 		return nil, fmt.Errorf("KMSInternalException: decrypt failed in %s", r.Name)
+	}
+	if r.TimeoutDecrypt {
+		r.cloud.log(r.Name, "decrypt", false)
+		return nil, fmt.Errorf("operation error KMS: Decrypt, https response error: request send failed in %s: %w", r.Name, context.DeadlineExceeded)
 	}
 	pt, err := r.open(blob)
 	if err != nil {
@@ -225,6 +274,9 @@ func (c V1) GenerateDataKeyWithContext(ctx aws.Context, in *kms1.GenerateDataKey
 	if err != nil {
 		return nil, err
 	}
+	if c.R.IncompleteGenerate {
+		return &kms1.GenerateDataKeyOutput{Plaintext: pt}, nil
+	}
 	return &kms1.GenerateDataKeyOutput{Plaintext: pt, CiphertextBlob: b, KeyId: aws.String(c.R.ARN)}, nil
 }
 
@@ -251,6 +303,9 @@ func (c V2) GenerateDataKey(ctx context.Context, in *kms2.GenerateDataKeyInput, 
 	pt, b, err := c.R.generate(ctx, aws.StringValue(in.KeyId))
 	if err != nil {
 		return nil, err
+	}
+	if c.R.IncompleteGenerate {
+		return &kms2.GenerateDataKeyOutput{Plaintext: pt}, nil
 	}
 	return &kms2.GenerateDataKeyOutput{Plaintext: pt, CiphertextBlob: b, KeyId: aws.String(c.R.ARN)}, nil
 }
